@@ -179,3 +179,82 @@ def s02(tier, seed):
                 run.witness("zero_prediction_with_nondegenerate_interval")
     run.sample({"scenario": scen[0]})
     run.finish(require_witnesses=["group_with_all_zero_results", "zero_prediction_with_nondegenerate_interval"])
+
+
+# ---------------------------------------------------------------------------------------------------------------
+# S03: the simulated live feed
+
+
+def _job_mockfeed(arg):
+    import pandas as pd
+
+    from harness import synth  # noqa: F401
+    from elexmodel.handlers.data.LiveData import MockLiveDataHandler
+
+    seed, count = arg
+    rnd = random.Random(seed)
+    out = []
+    for _ in range(count):
+        N = rnd.randint(3, 8)
+        ids = rnd.sample(["a", "b", "c", "d", "e", "f", "g", "h", "k1", "k2"], N)
+        res = {x: rnd.randint(1, 50) for x in ids}
+        df = pd.DataFrame({"postal_code": ["AA"] * N, "geographic_unit_fips": ids, "county_fips": ["c"] * N, "county_classification": ["k"] * N,
+                           "results_turnout": [res[x] for x in ids]})
+        u = rnd.choice([0, 0, 1, 2])
+        # at least one expected unit reports: with none, the handler's column assignment on the empty reporting frame
+        # re-expands it to N phantom rows without ids (observation O3 in DESIGN 9.3; outside this model's precondition)
+        n = rnd.randint(max(2 * u, u + 1), N + u)
+        enforce = rnd.sample(ids, rnd.randint(0, 2))
+        sd = rnd.randint(0, 10**6)
+
+        def handler():
+            return MockLiveDataHandler("e", "G", "county", ["turnout"], data=df.copy(), unexpected_units=u)
+
+        h0 = handler()
+        h0.shuffle(seed=sd)
+        order0 = h0.data.geographic_unit_fips.tolist()
+        h = handler()
+        h.shuffle(seed=sd, enforce=enforce)
+        try:
+            got = h.get_n_fully_reported(n)
+        except Exception as e:  # noqa: BLE001
+            out.append({"kind": "raised", "exc": f"{type(e).__name__}: {str(e)[:200]}", "N": N, "n": n, "u": u})
+            continue
+        rows = []
+        for _, r in got.iterrows():
+            fid = str(r["geographic_unit_fips"])
+            rows.append({"id": fid, "pev": int(r["percent_expected_vote"]), "res": int(r["results_turnout"]), "raw": int(r["raw_results_turnout"]), "fake": fid not in res})
+        out.append({"kind": "report", "order": order0, "res": res, "n": n, "u": u, "enforce": enforce, "out": rows})
+        pct = rnd.randint(0, 100)
+        out.append({"kind": "percent", "percent": pct, "N": N, "up": h0._convert_percent_to_n(pct, "up"), "down": h0._convert_percent_to_n(pct, "down")})
+    return out
+
+
+def s03(tier, seed):
+    """The simulated live feed (MockFeed.tla): recorded outputs of the real MockLiveDataHandler validated by Trace_MockFeed."""
+    from harness import tracecheck
+
+    run = report.Run("S03", tier, seed)
+    run.assumptions += ["supplementary model, not a listed property; preconditions n >= 2u, 1 <= n - u <= N (outside them the handler slices from the end, raises, or - for n - u = 0 - returns N phantom reporting rows without ids)",
+                        "ids in the recorded runs are not prefix-related: the model shows that a fake id can collide with a real id otherwise (MC_MockFeed_prefix.cfg)"]
+    common.mc(run, "MC_MockFeed", "MC_MockFeed.cfg", timeout=600, workers=8)
+    common.mc(run, "MC_MockFeed", "MC_MockFeed_prefix.cfg", expect_violation="FakeIdsFresh", workers=4, name="demo: ids '1' and '10' - a fake id collides with a real one")
+    traces = []
+    for recs in common.pool().map(_job_mockfeed, [(seed + k, 40) for k in range(8 if tier == "quick" else 80)], chunksize=1):
+        for r in recs:
+            if r["kind"] == "raised":
+                run.violation("handler_raised", {"clause": "handler_raised"}, r)
+            else:
+                traces.append(r)
+                if r["kind"] == "report" and r["u"] > 0:
+                    run.witness("request_with_unexpected_rows")
+                if r["kind"] == "report" and r["enforce"]:
+                    run.witness("request_with_enforced_units")
+
+    def on_reject(tr, clause, inv):
+        run.violation(clause, {"clause": clause, "kind": tr["kind"]}, {"trace": tr})
+
+    n_ok = tracecheck.validate("Trace_MockFeed", "Trace_MockFeed.cfg", traces, on_reject, run=run, chunk=1000)
+    run.cov["traces_validated_against_impl"] += n_ok
+    run.sample({"recorded": traces[0]})
+    run.finish(require_witnesses=["request_with_unexpected_rows", "request_with_enforced_units"])
